@@ -1,8 +1,8 @@
 (** Definitions for the boundary examples of C01 (Properties/C01.v): the boolean round-trip
     test on the executable model and small tree constructors. *)
 From Coq Require Import String Ascii ZArith QArith Bool List.
-From GT Require Import Base.UTree Model.Newick Model.NewickNum Spec.NewickSpec
-     Proofs.NewickTheorem Proofs.NewickNumC.
+From GT Require Import Base.UTree Model.Newick Model.NewickNum Model.MultiTree Spec.NewickSpec
+     Proofs.NewickTheorem Proofs.NewickNumC Proofs.NewickGlue.
 Import ListNotations.
 Local Close Scope Q_scope.
 Local Open Scope string_scope.
@@ -40,3 +40,12 @@ Definition reread (t : utree) : string :=
   | PErr m => "ERR " ++ m
   | POutOfFuel => "fuel"
   end.
+
+(** the glue path on the executable model: reads of a buffer of [bufsz] bytes *)
+Definition glue_go (bufsz : nat) (s : string) : multi_res :=
+  read_multi (nparse numericC parse_numC) (phys_reads (S (String.length s)) bufsz s).
+
+(** every ASCII character from 1 to 127 except [skip] *)
+Definition ascii_but (skip : list nat) : string :=
+  fold_right (fun n acc => if existsb (Nat.eqb n) skip then acc else String (ascii_of_nat n) acc)
+             "" (seq 1 127).
